@@ -16,6 +16,8 @@ Decided:
              filled only from non-empty blocks
   C13.read   FlacStreamReader::read reports an I/O error met while parsing a frame header instead of skipping the frame
   (C13.count also requires every Write::flush of the crate's adaptors to forward to the wrapped stream and return its result)
+  C13.drop   (also) no flatten / filter_map(Result::ok) / map_while(Result::ok) over an iterator of I/O-bearing results
+  C13.len    the declared-length check sees the counter including the block at hand (taken from C15)
 Not decided: completeness / validity of the bytes delivered (see C02, C11).
 """
 from rules.common import *
